@@ -249,6 +249,69 @@ def offsets_preserved(rep: Report, prog: Program, resolver: Resolver) -> None:
         rep.ok("R10.7", "conversions", note="no site rebuilds hops from hops")
 
 
+def offset_composition(rep: Report, prog: Program, resolver: Resolver) -> None:
+    """R10.8, package-wide (the CLI walks the tables on its own): wherever a zero-point offset - read from
+    `_offsets` or unpacked from a hop (scale, offset, unit) - is an operand of an addition, the other
+    operand is a product: value*ratio + offset.  Adding it to another offset or to a bare accumulator
+    composes two affine maps as if their ratios were 1."""
+    from ..cfg import CFG
+    n = 0
+    for q, fi in sorted(prog.functions.items()):
+        if fi.module in ("hypothesis", "pytest") or fi.module not in ("conversions", "cli", ""):
+            continue
+        src = ast.unparse(fi.node)
+        if "_offsets" not in src and fi.module != "conversions":
+            continue
+        offs: Set[str] = set()
+        for node in ast.walk(fi.node):
+            if isinstance(node, ast.Assign) and len(node.targets) == 1 and isinstance(node.targets[0], ast.Name) and "_offsets" in ast.unparse(node.value) \
+                    and not isinstance(node.value, (ast.Dict, ast.DictComp)):
+                offs.add(node.targets[0].id)
+            tgt = None
+            if isinstance(node, ast.For):
+                tgt, it = node.target, node.iter
+            elif isinstance(node, ast.comprehension):
+                tgt, it = node.target, node.iter
+            if tgt is not None and isinstance(tgt, ast.Tuple) and len(tgt.elts) == 3 and isinstance(tgt.elts[1], ast.Name) and tgt.elts[1].id != "_" \
+                    and _is_path(prog, resolver, fi, it):
+                offs.add(tgt.elts[1].id)
+        if not offs:
+            continue
+        cfg = CFG(fi.node)
+
+        def is_product(e: ast.AST, at: Optional[int], depth: int = 0) -> bool:
+            if isinstance(e, ast.Call) and ast.unparse(e.func) in ("_mul", "_div"):
+                return True
+            if isinstance(e, ast.BinOp) and isinstance(e.op, (ast.Mult, ast.Div)):
+                return True
+            if isinstance(e, ast.Name) and at is not None and depth < 3:
+                ds = cfg.reaching_defs(at, e.id)
+                return bool(ds) and all(d is not None and isinstance(d, ast.Assign) and is_product(d.value, cfg.node_of(d), depth + 1) for d in ds)
+            return False
+        for node in ast.walk(fi.node):
+            a = b = None
+            if isinstance(node, ast.Call) and ast.unparse(node.func) == "_add" and len(node.args) == 2:
+                a, b = node.args
+            elif isinstance(node, ast.BinOp) and isinstance(node.op, ast.Add):
+                a, b = node.left, node.right
+            if a is None:
+                continue
+
+            def is_off(e: ast.AST) -> bool:
+                return (isinstance(e, ast.Name) and e.id in offs) or ("_offsets" in ast.unparse(e) and not isinstance(e, ast.Name))
+            if not (is_off(a) or is_off(b)):
+                continue
+            other = b if is_off(a) else a
+            n += 1
+            at = cfg.node_of(node)
+            rep.check("R10.8", f"{q}:{ast.unparse(node)[:50]}", is_product(other, at) and not (is_off(a) and is_off(b)),
+                      f"`{ast.unparse(node)[:70]}` adds a zero-point offset to `{ast.unparse(other)[:30]}`, which is not a product value*ratio: "
+                      "offsets along a route are summed without being scaled by the ratios that follow (10 degC lists as 291.15 R)",
+                      fi.where(node))
+    if n < 2:
+        raise AnalysisError(f"only {n} offset additions found (convert and the CLI each have one): R10.8 anchors moved")
+
+
 def _is_path(prog: Program, resolver: Resolver, fi, it: ast.AST) -> bool:
     """Is `it` a list of (number, number, Unit) hops according to mypy?"""
     t = prog.mypy_type(fi.module, it)
@@ -271,6 +334,9 @@ def _is_path(prog: Program, resolver: Resolver, fi, it: ast.AST) -> bool:
 def run(rep: Report) -> None:
     prog = Program()
     resolver = Resolver(prog)
+    rep.rule("R05.7", "Quantity.in_unit is conversions.convert(self, unit), unchanged, on every path (shared with C05)", floor=1)
+    rep.rule("R10.8", "an offset taken from the offsets table or from a hop is only ever added to a product (magnitude x ratio): zero points are "
+             "never summed along a route without being scaled", floor=2)
     rep.rule("R10.7", "hops rebuilt from hops keep the offset that was read (no zero point is dropped while inlining or lifting paths)", floor=1)
     rep.rule("R10.1", "declared zero points and degree ratio give C = K - 273.15, R = 9/5 K, F = R - 459.67 exactly "
              "(literal text as rationals)", floor=4)
@@ -286,6 +352,9 @@ def run(rep: Report) -> None:
     convert_order(rep, prog)
     plan_order(rep, prog)
     offsets_preserved(rep, prog, resolver)
+    from .c05 import check_in_unit
+    check_in_unit(rep, prog, "R05.7")
+    offset_composition(rep, prog, resolver)
     from ..quantity_rules import check_comparisons
     check_comparisons(rep, prog, resolver, "R06.2")
     rep.assume("the planner follows the (unique) simple path between two temperature units; comparisons across scales "
